@@ -92,8 +92,8 @@ def stepL2Bulk (st : St) (cmd : List String) (got : String) : Option (St × Verd
           let exact : Verdict :=
             if rb.wf then
               let r := renderRep (rb.addMany vals)
-              if r != raS then some ("L2 AddMany model = Go representation; model: " ++ r.take 400)
-              else if !ra.wf then some "well-formed result of AddMany on a well-formed receiver"
+              if !ra.wf then some "well-formed result of AddMany on a well-formed receiver"
+              else if r != raS then some ("L2 AddMany model = Go representation; model: " ++ r.take 400)
               else if (rb.addManyWriteFlags vals).any id then some "model: no cached write meets a flagged slot"
               else none
             else none
@@ -114,8 +114,8 @@ def stepL2Bulk (st : St) (cmd : List String) (got : String) : Option (St × Verd
         let r := renderRep (Rep.bitmapOf vals)
         some (st', firstFail [
           failIf (ra.toBSetFast != expSet) ("abs(repr)=" ++ digest expSet ++ " = " ++ (dump expSet).take 300),
-          failIf (r != got) ("L2 BitmapOf model = Go representation; model: " ++ r.take 400),
-          failIf (!ra.wf) "well-formed result of BitmapOf"])
+          failIf (!ra.wf) "well-formed result of BitmapOf",
+          failIf (r != got) ("L2 BitmapOf model = Go representation; model: " ++ r.take 400)])
       | none => some (st', some "a parsable representation")
     | none => some (skipV st got)
   | "l2heap" :: fn :: z :: names =>
@@ -149,8 +149,8 @@ def stepL2Bulk (st : St) (cmd : List String) (got : String) : Option (St × Verd
           let exact : Verdict :=
             if reps.all Rep.wf then
               let r := renderRep (f2 reps)
-              if r != rzS then some ("L2 heap aggregate model = Go representation; model: " ++ r.take 400)
-              else if !rz.wf then some ("well-formed result of Heap" ++ fn ++ " on well-formed operands")
+              if !rz.wf then some ("well-formed result of Heap" ++ fn ++ " on well-formed operands")
+              else if r != rzS then some ("L2 heap aggregate model = Go representation; model: " ++ r.take 400)
               else none
             else none
           some (st', firstFail [
